@@ -71,16 +71,18 @@ theorem slice_pc (prog : Prog) (now : Nat) (self : Pid) : ∀ (fuel : Nat) (x : 
         split
         · exact slice_pc prog now self fuel { x with selInit := true, selStart := some now }
         · exact ⟨Nat.le_refl _, rfl⟩
-      · dsimp only
-        split
-        · rename_i v mb _
-          have ih := slice_pc prog now self fuel
-            { x with selStart := none, pc := x.pc + 1, selInit := false, acc := x.acc ++ [v], mailbox := mb,
-                     awaiting := x.awaiting.filter (fun kv => kv.1 ∉ selTargets x srcs),
-                     awaitFailed := x.awaitFailed.filter (· ∉ selTargets x srcs) }
-          exact ⟨Nat.le_trans (Nat.le_succ _) ih.1, ih.2.trans hnsp⟩
+      · split
         · exact ⟨Nat.le_refl _, rfl⟩
-        · exact ⟨Nat.le_refl _, rfl⟩
+        · dsimp only
+          split
+          · rename_i v mb _
+            have ih := slice_pc prog now self fuel
+              { x with selStart := none, pc := x.pc + 1, selInit := false, acc := x.acc ++ [v], mailbox := mb, unanswered := [],
+                       awaiting := x.awaiting.filter (fun kv => kv.1 ∉ selTargets x srcs),
+                       awaitFailed := x.awaitFailed.filter (· ∉ selTargets x srcs) }
+            exact ⟨Nat.le_trans (Nat.le_succ _) ih.1, ih.2.trans hnsp⟩
+          · exact ⟨Nat.le_refl _, rfl⟩
+          · exact ⟨Nat.le_refl _, rfl⟩
 
 def OutSend (prog : Prog) (ρ : Nat → Nat → Nat) (self : Pid) (x : Proc) (r : Proc × Outcome) : Prop :=
   match r.2 with
@@ -119,27 +121,29 @@ theorem slice_sends (prog : Prog) (ρ : Nat → Nat → Nat) (now : Nat) (self :
         · have ih := slice_sends prog ρ now self fuel { x with selInit := true, selStart := some now }
           exact ih
         · exact ⟨rfl, fun _ => rfl⟩
-      · dsimp only
-        split
-        · rename_i v mb _
-          have ih := slice_sends prog ρ now self fuel
-            { x with selStart := none, pc := x.pc + 1, selInit := false, acc := x.acc ++ [v], mailbox := mb,
-                     awaiting := x.awaiting.filter (fun kv => kv.1 ∉ selTargets x srcs),
-                     awaitFailed := x.awaitFailed.filter (· ∉ selTargets x srcs) }
-          refine ⟨ih.1, ?_⟩
-          have h2 := ih.2
-          unfold OutSend at h2 ⊢
+      · split
+        · exact ⟨rfl, fun _ => rfl⟩
+        · dsimp only
           split
-          · rename_i t m heq
-            rw [heq] at h2
-            obtain ⟨rr, h3, h4, h5, h6, h7⟩ := h2
-            exact ⟨rr, h3, h4, h5, h6, fun kb => by rw [h7 kb]; show sendsK prog ρ x.fn (x.pc + 1) kb ++ _ = _; rw [hstep kb]⟩
-          · rename_i hne
-            split at h2
-            · rename_i t m heq; exact absurd heq (hne t m)
-            · intro kb; rw [h2 kb]; exact hstep kb
-        · exact ⟨rfl, fun _ => rfl⟩
-        · exact ⟨rfl, fun _ => rfl⟩
+          · rename_i v mb _
+            have ih := slice_sends prog ρ now self fuel
+              { x with selStart := none, pc := x.pc + 1, selInit := false, acc := x.acc ++ [v], mailbox := mb, unanswered := [],
+                       awaiting := x.awaiting.filter (fun kv => kv.1 ∉ selTargets x srcs),
+                       awaitFailed := x.awaitFailed.filter (· ∉ selTargets x srcs) }
+            refine ⟨ih.1, ?_⟩
+            have h2 := ih.2
+            unfold OutSend at h2 ⊢
+            split
+            · rename_i t m heq
+              rw [heq] at h2
+              obtain ⟨rr, h3, h4, h5, h6, h7⟩ := h2
+              exact ⟨rr, h3, h4, h5, h6, fun kb => by rw [h7 kb]; show sendsK prog ρ x.fn (x.pc + 1) kb ++ _ = _; rw [hstep kb]⟩
+            · rename_i hne
+              split at h2
+              · rename_i t m heq; exact absurd heq (hne t m)
+              · intro kb; rw [h2 kb]; exact hstep kb
+          · exact ⟨rfl, fun _ => rfl⟩
+          · exact ⟨rfl, fun _ => rfl⟩
 
 /-! ### a pid has one script; scripts persist -/
 
@@ -264,8 +268,11 @@ theorem PcBack.applyResults (a : Pid) : ∀ (rs : Results) (w : WorkerSt), PcBac
   | [], w => PcBack.refl w
   | (t0, some r) :: rest, w => by
     unfold QM.Sys.applyResults; exact (PcBack.notifyResult w a t0 r).trans (PcBack.applyResults a rest _)
-  | (_, none) :: rest, w => by
-    unfold QM.Sys.applyResults; exact PcBack.applyResults a rest w
+  | (t0, none) :: rest, w => by
+    unfold QM.Sys.applyResults
+    refine (?_ : PcBack w (w.notifyPending a t0)).trans (PcBack.applyResults a rest _)
+    unfold WorkerSt.notifyPending
+    exact PcBack.modProc w a _ (fun y => ⟨rfl, rfl⟩)
 
 theorem PcBack.foldl {α : Type} (f : WorkerSt → α → WorkerSt) (hf : ∀ w a, PcBack w (f w a)) :
     ∀ (l : List α) (w : WorkerSt), PcBack w (l.foldl f w)
